@@ -746,3 +746,27 @@ package gpbft
 //@     before[support_grows_by_the_senders_power] old(has(q.chainSupport, res(Key, 1))) && 0 <= power && power <= 65535 && abs(old(q.chainSupport[res(Key, 1)].power)) <= 4611686018427387904 ==> candidate.power == old(q.chainSupport[res(Key, 1)].power) + power
 //@     before[a_new_value_starts_with_the_senders_power] !old(has(q.chainSupport, res(Key, 1))) ==> candidate.power == power
 //@   ensures[support_is_stored_under_the_values_key] has(q.chainSupport, res(Key, 1)) && q.chainSupport[res(Key, 1)].hasStrongQuorum == res(IsStrongQuorum, 1)
+
+// The participant's own CONVERGE value never displaces one already recorded for the same chain (which may carry a
+// real ticket); it is recorded with the given justification when the chain is new.
+//@ func (*convergeState).SetSelfValue
+//@   property C07
+//@   modifies auto
+//@   maypanic
+//@   ensures[an_existing_entry_is_kept] old(has(c.values, res(Key, 1))) ==> c.values[res(Key, 1)] == old(c.values[res(Key, 1)])
+//@   ensures[a_new_chain_is_recorded_with_its_justification] !old(has(c.values, res(Key, 1))) ==> has(c.values, res(Key, 1)) && c.values[res(Key, 1)].Chain == value && c.values[res(Key, 1)].Justification == justification
+//@   ensures[other_entries_are_untouched] forall(ECChainKey(k), k != res(Key, 1) ==> has(c.values, k) == old(has(c.values, k)) && c.values[k] == old(c.values[k]), trigger(c.values[k]))
+//@   at Key 1
+//@     before[keyed_by_the_value] arg(0) == value
+
+// Queued messages are drained one by one; a message that fails the late-binding checks (wrong base or supplemental
+// data: a ValidationError) is dropped, it does not abort the batch; any other error does.
+//@ func (*instance).ReceiveMany
+//@   property C07
+//@   modifies auto
+//@   maypanic
+//@   opaque postReceive, log
+//@   at return 2
+//@     before[only_a_non_validation_error_aborts_the_batch] res(receiveOne, 1, 1) != nil && !res(As, 1) && argOf(As, 1, 0) == res(receiveOne, 1, 1) && arg(0) == res(receiveOne, 1, 1)
+//@   at receiveOne 1
+//@     before[each_queued_message] arg(1) == msg
